@@ -566,6 +566,8 @@ type Cache struct {
 	Log    *EffectLog
 	Closed int
 	Puts   int
+	// Locked is set while a store opened from the disk model is open (leveldb's LOCK file).
+	Locked bool
 	// Label summarises a value for Event labels (set by harnesses that replay schedules).
 	Label func(key string, value []byte) string
 }
@@ -617,6 +619,7 @@ func (c *Cache) Sync(ctx context.Context, prefix datastore.Key) error { return n
 func (c *Cache) Close() error {
 	c.mu.Lock()
 	c.Closed++
+	c.Locked = false
 	c.mu.Unlock()
 	return nil
 }
